@@ -44,6 +44,19 @@ def run(ck: Check):
     else:
         for tc in small_layouts(4, alphabet=(b"a\n", b"b\n"), with_nonred=False):
             ex.dfs("minimize", {}, tc, stream="dfs4", max_runs=600)
+    # atoms that differ only in something a normalisation would erase - a byte that is not UTF-8 against another one or
+    # against '?', letter case, a trailing blank, the line terminator, a combining form: candidates built from them are
+    # DIFFERENT files, each is tested on its own
+    for alpha in ((b"\xff\n", b"\xfe\n"), (b"\xff\n", b"?\n"), (b"\xc3\xa9\n", b"\xc3\n"), (b"a\n", b"A\n"), (b"a\n", b"a \n"),
+                  (b"a\n", b"a\r\n"), (b"\xc3\xa9\n", b"e\xcc\x81\n"), (b"\xed\xa0\x80\n", b"\xef\xbf\xbd\n")):
+        for tc in small_layouts(3 if quick else 4, alphabet=alpha, with_nonred=False):
+            if len(set(tc[1])) < 2:
+                continue
+            for cfg in ({}, {"repeat": "always"}):
+                ex.dfs("minimize", cfg, tc, stream="dfs-near-identical-atoms", max_runs=60 if quick else 600)
+    # the same strategy object after another file
+    from universe import reuse_universe
+    reuse_universe(ex, ck, strategies=("minimize",))
     ex.diff()
     # deterministic non-monotone families on larger inputs
     r = rng("c03")
